@@ -413,13 +413,17 @@ struct C07
     int stale  = 0;  // a write for a connection that is already gone sits in the write queue ahead of B's response
     int again  = 0;  // after its release A accepts 3 more bytes and would-blocks a second time
     int reenter = 0; // the completion of A's first write calls back into the transport (flush), as the idle check's 408 does
+    // > 0 (round 6): B sends no request; while A is blocked, flushq further writes for A and then B's answer are put into the
+    // worker's write queue (as handler threads do), and the loop thread then flushes the transport (as a streaming handler of
+    // A does with its chunk): a flush that meets a blocked connection must still deliver what is queued behind it
+    int flushq = 0;
 };
 static std::vector<C07> gC07;
 
 static void case_c07(uint64_t idx, vr::Ctx& ctx)
 {
     const C07 c = gC07[idx];
-    std::string desc = std::string(c.reenter ? "[the completion of A's first write re-enters the transport] " : "") + std::string(c.again ? "[A would-blocks a second time after its release] " : "") + std::string(c.stale ? "[a write for a vanished connection is queued ahead of B's response] " : "") + std::string(c.closer ? "[third connection closes when A is released] " : "") + (c.fileAt >= 0 ? "[A's write " + std::to_string(c.fileAt) + " is a file] " : std::string()) + "A: " + std::to_string(c.pending) + " pending writes, would-block at write call " + std::to_string(c.blockAt) + " released after " + std::to_string(c.releaseAfter) + " steps; B: request at step " + std::to_string(c.arriveAt) + (c.split ? " (in two reads)" : "") + "; event order " + (c.order ? "B first" : "A first");
+    std::string desc = std::string(c.flushq ? "[while A is blocked: " + std::to_string(c.flushq) + " more write(s) for A and B's answer are queued from outside the loop, then the loop thread flushes] " : std::string()) + std::string(c.reenter ? "[the completion of A's first write re-enters the transport] " : "") + std::string(c.again ? "[A would-blocks a second time after its release] " : "") + std::string(c.stale ? "[a write for a vanished connection is queued ahead of B's response] " : "") + std::string(c.closer ? "[third connection closes when A is released] " : "") + (c.fileAt >= 0 ? "[A's write " + std::to_string(c.fileAt) + " is a file] " : std::string()) + "A: " + std::to_string(c.pending) + " pending writes, would-block at write call " + std::to_string(c.blockAt) + " released after " + std::to_string(c.releaseAfter) + " steps; B: request at step " + std::to_string(c.arriveAt) + (c.split ? " (in two reads)" : "") + "; event order " + (c.order ? "B first" : "A first");
     ctx.note("c07 " + desc);
     auto handler = std::make_shared<EchoHandler>();
     lp::Loop loop(handler);
@@ -483,7 +487,20 @@ static void case_c07(uint64_t idx, vr::Ctx& ctx)
     bool released  = false;
     for (int s = 0; s < 80; ++s)
     {
-        if (s == c.arriveAt)
+        if (s == c.arriveAt && c.flushq)
+        {
+            for (int k = 0; k < c.flushq; ++k)
+            {
+                std::string dat = "<extra" + std::to_string(k) + ">";
+                expectA += dat;
+                loop.transport->asyncWrite(fa, RawBuffer(dat, dat.size())).then([](ssize_t) {}, [](std::exception_ptr) {});
+            }
+            const std::string ans = "HTTP/1.1 200 OK\r\nContent-Length: 7\r\n\r\necho:/b";
+            loop.transport->asyncWrite(fb, RawBuffer(ans, ans.size())).then([](ssize_t) {}, [](std::exception_ptr) {});
+            loop.transport->flush();
+            arrived = s;
+        }
+        else if (s == c.arriveAt)
         {
             if (c.stale)
                 loop.transport->asyncWrite(fdGone, RawBuffer("gone", 4)).then([](ssize_t) {}, [](std::exception_ptr) {});
@@ -581,6 +598,17 @@ int main(int argc, char** argv)
                                             gC07.push_back({ p, i, d, j, o, sp, cl, p - 1 });
                                     }
                                 }
+        // a flush on the loop thread while A is blocked and entries for A and for B are queued from outside the loop
+        for (int p = 1; p <= 2; ++p)
+            for (int i = 0; i <= 2; ++i)
+                for (int d = 1; d <= 3; ++d)
+                    for (int j = 1; j <= 4; ++j)
+                        for (int fq = 1; fq <= 2; ++fq)
+                        {
+                            C07 c { p, i, d, j, 0, 0, 0 };
+                            c.flushq = fq;
+                            gC07.push_back(c);
+                        }
         // long queues behind the stall: far more pending writes than any per-turn batch
         for (int p : { 17, 33, 65 })
             for (int i : { 0, 2 })
